@@ -1,7 +1,7 @@
 (* Parsers area (C08/C09): header-parser models.
    prs_<name> <hex>  ->  ok:<fields>|err|panic|fuel  followed by " a=<max allocation request>"
-   The models are the code as it stands in /repo (after the fixes of findings F36-F46).
-   prs_frame <marker> <hex> -> declared S of the unique frame header with that SOF marker code. *)
+   The models are the code as it stands in /repo (after the fixes of findings F36-F47).
+   prs_declared <hex> -> declared S (first frame header of any kind / SIZ), saturated at 2^61. *)
 open BinNums
 open Conv
 
@@ -35,9 +35,6 @@ let register (reg : string -> (string list -> string) -> unit) : unit =
   op "prs_sv1" (fun bs -> show j_fields (PrsJpeg.sv1_decode (fuel_of bs) bs));
   op "prs_bl" (fun bs -> show j_fields (PrsBaseline.bl_decode (fuel_of bs) bs));
   op "prs_j2k" (fun bs -> show k_fields (PrsJ2k.k_main_header (fuel_of bs) bs));
-  reg "prs_frame" (fun a -> match a with
-    | [m; hx] -> string_of_int (int_of_z (PrsOutcome.frame_declared (z_of_int (int_of_string m)) (bytes_of_hex hx)))
-    | _ -> "?");
   reg "prs_rle" (fun a -> match a with
     | [w; h; ba; spp; hx] ->
       let z x = z_of_int (int_of_string x) in
